@@ -94,7 +94,6 @@ EXPORT errno_t _memset16_s_chk(uint16_t *dest, rsize_t dmax, uint16_t value,
         BND_CHK_PTR_BOUNDS(dest, n);
     } else {
         CHK_DEST_MEM_OVR("memset16_s", destbos)
-        dmax = destbos;
     }
 
     err = EOK;
